@@ -59,6 +59,14 @@ def run_session(table, config, ops):
             names[en["fn"]] = chars(TESTNAME[en["fn"]])
             names.setdefault(en["stream"], chars(en["stream"]))
 
+    # ... and the tests that only the filters of a save name (a roll-up may carry such a test's name)
+    for op in ops:
+        if op[0] == "save":
+            for lst in (op[1]["include"], op[1]["exclude"]):
+                for it in lst["items"]:
+                    if it["kind"] not in ("stream", "rollupname") and it["v"] in TESTNAME:
+                        names.setdefault(it["v"], chars(TESTNAME[it["v"]]))
+
     def conc(lst):
         if not lst["given"]:
             return None
